@@ -30,9 +30,15 @@ IsMate(v) == v <= -(MATE - MAXD) \/ v >= MATE - MAXD
 StepV(r) == IF IsMate(r) THEN (IF r > 0 THEN r - 1 ELSE r + 1) ELSE r
 
 Leaves == {s \in [1..D -> 1..B] : TRUE}
-VARIABLE leaf
-Init == leaf \in [Leaves -> Vals]
-Next == UNCHANGED leaf
+VARIABLES leaf, prune
+\* prune[l]: the move into leaf l is one the frontier node may skip (futility pruning: a quiet, non-checking move at a node whose
+\* static evaluation is far below alpha).  Init: no pruning (the fail-soft theorem); InitPrune: every choice of prunable moves.
+Init == leaf \in [Leaves -> Vals] /\ prune = [l \in Leaves |-> FALSE]
+InitPrune == leaf \in [Leaves -> Vals] /\ prune \in [Leaves -> BOOLEAN]
+Next == UNCHANGED <<leaf, prune>>
+\* search.cpp: `if (doFutilityPruning && moveIsQuiet && bestValue > lost_in(MAX_DEPTH) && !move_gives_check) continue;`
+\* - the guard on bestValue is the repair cccf193: while every move searched so far is mated nothing may be skipped.
+MaySkip(ch, best) == Len(ch) = D /\ prune[ch] /\ (Variant = "no_guard" \/ best > -(MATE - MAXD))
 
 Max(S) == CHOOSE x \in S : \A y \in S : y <= x
 IsLeaf(n) == Len(n) = D
@@ -45,7 +51,8 @@ MM(n) == IF IsLeaf(n) THEN LeafVal(n) ELSE Max({StepV(-MM(Append(n, c))) : c \in
 RECURSIVE AB(_, _, _), Loop(_, _, _, _, _, _)
 AB(n, alpha, beta) == IF IsLeaf(n) THEN LeafVal(n) ELSE Loop(n, 1, alpha, beta, -INF, beta # alpha + 1)
 Loop(n, c, alpha, beta, best, pv) ==
-  IF c > B THEN best
+  IF c > B THEN (IF best = -INF THEN alpha ELSE best)   \* every move skipped: fail low (repair cad9cba; with the guard the first move is never skipped)
+  ELSE IF MaySkip(Append(n, c), best) THEN Loop(n, c + 1, alpha, beta, best, pv)
   ELSE LET ch == Append(n, c)
            r0 == -AB(ch, -(alpha + 1), -alpha)
            r1 == IF pv /\ alpha < r0 /\ r0 < beta /\ Variant # "no_research" THEN -AB(ch, -beta, -alpha) ELSE r0
@@ -60,6 +67,7 @@ Loop(n, c, alpha, beta, best, pv) ==
 \* ---------------------------------------------------------------- model values (AlphaBeta.cfg)
 MCVals == {-10, -1, 0, 1}
 MCVals3 == {-10, 0, 1}
+MCVals2 == {-10, 0}
 MCWindows == {<<-11, 11>>, <<-11, -8>>, <<-9, -8>>, <<-8, -1>>, <<-2, -1>>, <<-1, 0>>, <<-1, 1>>, <<0, 1>>, <<0, 2>>, <<1, 9>>, <<8, 9>>, <<7, 11>>, <<-9, 9>>, <<-2, 2>>,
               <<-10, -9>>, <<9, 10>>, <<-9, -7>>, <<7, 9>>}
 
@@ -71,4 +79,9 @@ FailSoft(a, b) == LET v == AB(Root, a, b) m == MM(Root) IN
 Sound == \A w \in Windows : FailSoft(w[1], w[2])
 \* full window: the value is exact, hence a mate score at the root is the true distance
 FullWindowExact == AB(Root, -INF, INF) = MM(Root)
+\* with pruning the value is a heuristic, but a MATE score must stay a true statement (C08): a claimed win is at least that fast,
+\* a claimed loss at least that bad - for every choice of skippable moves
+MateClaimsSound == LET v == AB(Root, -INF, INF) m == MM(Root) IN
+  /\ (v >= MATE - MAXD => m >= v)
+  /\ (v <= -(MATE - MAXD) => m <= v)
 =============================================================================
